@@ -20,7 +20,7 @@ type Comp struct {
 type Closure struct {
 	Fn       *ssa.Function
 	Bindings []Val
-	// Bound receiver for bound-method closures ($bound)
+	Builtin  string // engine-modelled function values ("cancel": the CancelFunc of context.WithCancel)
 }
 
 // Val is the symbolic value of a Go expression: a flat list of components.
